@@ -429,8 +429,9 @@ theorem observeSent_deadStay (s s' : BState) (c : ConnId) (p : Packet) (c' : Con
                     if id ≠ 0 then none else
                       some ((s.setSessOf c b1).setConn c (retake { x with deqHand := false, deqChan := min s.cfg.window (x.deqChan + 1) }))
                   else
-                    if (b1.sess.nextID).1 ≠ id then none else
-                      some ((s.setSessOf c { b1 with sess := (b1.sess.nextID).2.savePacket .outgoing (.publish out false id) }).setConn c
+                    if (b1.sess.freshID).1 = 0 then none else
+                    if (b1.sess.freshID).1 ≠ id then none else
+                      some ((s.setSessOf c { b1 with sess := (b1.sess.freshID).2.savePacket .outgoing (.publish out false id) }).setConn c
                         (retake { x with deqHand := false }))) = some s1 → DeadStayAt s s1 c' := by
                 intro b1 out s1 hs1
                 have hx1 : ∀ b2, (s.setSessOf c b2).conn? c = some x := fun b2 => by rw [setSessOf_conn?]; exact hx
@@ -442,9 +443,11 @@ theorem observeSent_deadStay (s s' : BState) (c : ConnId) (p : Packet) (c' : Con
                       (setConn_deadStay _ c c' x _ (hx1 _) (by simp))
                 · split at hs1
                   · cases hs1
-                  · injection hs1 with hs1; subst hs1
-                    exact (conns_deadStay (setSessOf_conns _ _ _) c').trans
-                      (setConn_deadStay _ c c' x _ (hx1 _) (by simp))
+                  · split at hs1
+                    · cases hs1
+                    · injection hs1 with hs1; subst hs1
+                      exact (conns_deadStay (setSessOf_conns _ _ _) c').trans
+                        (setConn_deadStay _ c c' x _ (hx1 _) (by simp))
               split at h
               · cases h
               · split at h
